@@ -144,6 +144,7 @@ def check(prog, run):
                         want = L.strip_ids(L.freeze(lst))
                         same_list = _occurs(L.strip_ids(L.freeze(stts[2])), want)
                         ok = (q in c01.bases_in(lst)) and unit and same_list
+            stts_values_rule(run, "R4", key, kind, stts)
             run.check(ok, "R4", "%s %s mdhd==sum(stts source)" % (key, kind), "mdhd.duration = sum(durations) of the list behind stts", "mdhd duration is %s, not the sum of the durations list that feeds stts" % d)
             if kind == "video":
                 ctts_rule(run, key, trak, m, q)
@@ -195,6 +196,33 @@ def rle_rule(prog, run, R="R6"):
         newrun = [p_ for p_ in pushes if p_[1] == root]
         good = len(newrun) == 1 and newrun[0][2][0] == "agg" and newrun[0][2][1] == "tuple" and len(newrun[0][2][3]) == 2 and newrun[0][2][3][0][:2] == ("const", 1) \
             and newrun[0][2][3][1][0] == "load" and str(newrun[0][2][3][1][1]).startswith("arg1.[]")
+        # every element is accounted for: from the loop's element branch the next iteration is reachable only through the
+        # increment or the push (no `continue` that drops an element from the table while stsz/stco still count it)
+        heads = [blk["i"] for blk in b["blocks"] if blk["term"]["k"] == "call" and (mir.callee(blk["term"])[0] or "").endswith("::next") and not blk.get("cleanup")]
+        heads = [h_ for h_ in heads if bb in mir.reachable(b, [h_]) and h_ in mir.reachable(b, [bb])]     # the loop that contains the increment
+        if len(heads) != 1 or not newrun:
+            run.bad(R, want + " every element counted", "cannot identify the loop that builds the run-length entries (fail closed)")
+        else:
+            hd = heads[0]
+            cut = {bb, newrun[0][0]}
+            seen_, work_ = set(), []
+            # successors of the discriminant switch that follows next(): start from those that can reach the increment / push
+            nxt = b["blocks"][hd]["term"].get("target")
+            starts = [x for x in mir.succs(b, nxt)] if nxt is not None else []
+            starts = [x for x in starts if (cut & mir.reachable(b, [x])) or x in cut]
+            work_ = [x for x in starts if x not in cut]
+            skipped = False
+            while work_:
+                x = work_.pop()
+                if x in seen_ or x in cut or b["blocks"][x].get("cleanup"):
+                    continue
+                seen_.add(x)
+                if x == hd:
+                    skipped = True
+                    break
+                work_.extend(mir.succs(b, x))
+            run.check(not skipped, R, want + " every element counted", "each element either extends the current run or starts a new one",
+                      "an element of the input can reach the next loop iteration without being added to the table (a `continue`/guard drops it): the table then describes fewer samples than stsz/stco", mir.loc_of(node))
         run.check(good, R, want + " new-run", "otherwise push (1, element)", "a new run is not appended as (1, current element): %s" % [sym.show(p_[2])[:80] for p_ in newrun], mir.loc_of(newrun[0][3]) if newrun else None)
         n += 1
     run.floor(R, n, 2, "run-length table builders")
@@ -206,6 +234,31 @@ def _peel(e):
     if e[0] == "payload" or e[0] == "un":
         return e[1] if e[0] == "payload" else _peel(e[2])
     return e
+
+
+def stts_values_rule(run, R, key, kind, stts):
+    """the deltas stts carries are the elements' own durations: no emitted value is taken from the table under construction (a previous
+    run's value written again for a "close enough" element) or from anywhere but the current element"""
+    vals = []
+
+    def atoms_(sgs):
+        for sg in sgs:
+            if sg[0] == "be":
+                vals.append(sg[1])
+            elif sg[0] == "rep":
+                atoms_(sg[3])
+            elif sg[0] == "alt":
+                atoms_(sg[2])
+                atoms_(sg[3])
+            elif sg[0] == "match":
+                for _p, x_ in sg[2]:
+                    atoms_(x_)
+            elif sg[0] in ("perm",):
+                atoms_(sg[2])
+    atoms_([sg for sg in stts[2] if sg[0] in ("rep", "alt", "match", "perm")])
+    foreign = [v_ for v_ in vals if L.mentions(v_, lambda y: isinstance(y, tuple) and y[:1] == ("list",)) or not L.mentions(v_, lambda y: isinstance(y, tuple) and y[:1] == ("elem",))]
+    run.check(bool(vals) and not foreign, R, "%s %s stts deltas are the elements' own durations" % (key, kind), "%d emitted delta expression(s), each a function of the current element only" % len(vals),
+              "stts writes a delta that is not the current sample's own duration (%s): the track's timeline is no longer the sum of the submitted deltas" % (L.show(foreign[0])[:120] if foreign else "no delta found"))
 
 
 def _uncollect(x):
